@@ -35,7 +35,7 @@ type Result struct {
 	States       int64
 	Transitions  int64
 	Invariants   int64
-	Depth        int   // deepest level completely expanded
+	Depth        int // deepest level completely expanded
 	PerDepth     []int64
 	FrontierLeft int64 // states at Depth that were not expanded because MaxDepth was reached
 	Complete     bool  // true when every level up to MaxDepth was expanded completely
